@@ -74,8 +74,12 @@ def _safe_ok(call):
     return set(v) <= UNRESERVED_EXTRA
 
 
-def escaped(e, env):
-    """True/False: expression is percent-encoded text (sanitised) under env (names known to be encoded)."""
+_CK = None
+
+
+def escaped(e, env, depth=0):
+    """True/False: expression is percent-encoded text (sanitised) under env (names known to be encoded).
+    Same-module single-return helpers are followed; any other unknown call raises AnalysisError (not 'unescaped')."""
     e = _strip_wrappers(e)
     if isinstance(e, ast.Call):
         nm = q.dotted(e.func) or ""
@@ -83,7 +87,16 @@ def escaped(e, env):
             return True
         if nm.split(".")[-1] in ("quote", "quote_plus"):
             return nm.split(".")[-1] == "quote" and _safe_ok(e) is True
-        return False
+        if _CK is not None and isinstance(e.func, ast.Name) and _CK.repo.has_func(F, e.func.id) and depth < 2 and not e.keywords:
+            h = _CK.repo.func(F, e.func.id)
+            rets = [r for r in own_nodes(h.node) if isinstance(r, ast.Return) and r.value is not None]
+            hp = h.params()
+            if len(rets) == 1 and len(hp) == len(e.args):
+                henv = {p for p, a in zip(hp, e.args) if escaped(a, env, depth + 1)}
+                return escaped(_resolve(h, rets[0].value), henv, depth + 1)
+        if nm.split(".")[-1] in ("format", "join", "lower", "upper", "strip", "get", "pop", "decode", "replace", "b2a_hex", "b64encode", "time", "int", "hexlify"):
+            return False
+        raise AnalysisError("cannot tell whether %s percent-encodes its argument (helper not followed)" % q.unparse(e)[:60])
     if isinstance(e, ast.Name):
         return e.id in env
     if isinstance(e, ast.Constant):
@@ -247,12 +260,34 @@ def check_signature_fn(ck, fi):
     if len(params) < 5:
         raise AnalysisError("%s lost its (consumer_token, method, url, parameters, token) parameters" % fi.qualname)
     p_cons, p_method, p_url, p_params, p_token = params[:5]
+    sig_fi = fi
     macs = [c for c in q.find_calls(fi.node, "hmac.new", "hmac.HMAC")]
+    back = None  # maps an expression of the MAC helper back into the signature function
+    if not macs:
+        # the MAC computation was moved into a private module function: `return _helper(key, base_string)`
+        rets0 = [n for n in own_nodes(fi.node) if isinstance(n, ast.Return) and n.value is not None]
+        hv = resolve_local(fi, rets0[0].value) if len(rets0) == 1 else None
+        if not (isinstance(hv, ast.Call) and isinstance(hv.func, ast.Name) and ck.repo.has_func(fi.file, hv.func.id) and not hv.keywords):
+            raise AnalysisError("%s: no hmac.new call and the result is not the call of a module helper" % fi.qualname)
+        H = ck.use(ck.repo.func(fi.file, hv.func.id))
+        hp = H.params()
+        if len(hp) != len(hv.args):
+            raise AnalysisError("%s: MAC helper %s is not called positionally" % (fi.qualname, H.qualname))
+        amap = dict(zip(hp, hv.args))
+
+        def back(e, H=H, amap=amap):
+            core = _strip_wrappers(_resolve(H, _strip_wrappers(e)))
+            if isinstance(core, ast.Name) and core.id in amap and not _defs(H, core.id):
+                return amap[core.id]
+            raise AnalysisError("%s: cannot map %s of the MAC helper back to the signature function" % (sig_fi.qualname, q.unparse(e)))
+
+        fi = H
+        macs = [c for c in q.find_calls(fi.node, "hmac.new", "hmac.HMAC")]
     if len(macs) != 1:
         raise AnalysisError("%s: expected one hmac.new call" % fi.qualname)
     mac = macs[0]
     k_e, m_e, d_e = q.arg(mac, 0, "key"), q.arg(mac, 1, "msg"), q.arg(mac, 2, "digestmod")
-    ck.ob("C48.hmac-sha1", fi, mac, d_e is not None and (q.dotted(d_e) in ("hashlib.sha1", "sha1") or q.is_const(d_e, "sha1")), "the MAC is HMAC-SHA1")
+    ck.ob("C48.hmac-sha1", sig_fi, mac, d_e is not None and (q.dotted(d_e) in ("hashlib.sha1", "sha1") or q.is_const(d_e, "sha1")), "the MAC is HMAC-SHA1")
     # result: base64 of the digest without the trailing newline
     rets = [n for n in own_nodes(fi.node) if isinstance(n, ast.Return)]
     mac_name = None
@@ -269,7 +304,10 @@ def check_signature_fn(ck, fi):
         elif isinstance(v, ast.Call) and q.call_attr(v) in ("b64encode", "standard_b64encode") and v.args:
             inner = v.args[0]
             ok_ret = isinstance(inner, ast.Call) and q.call_attr(inner) == "digest" and (q.receiver(inner) == mac_name or inner.func.value is mac)
-    ck.ob("C48.hmac-sha1", fi, rets[0] if rets else fi.node, ok_ret, "the signature is the base64 encoding of the MAC digest (no trailing newline)")
+    ck.ob("C48.hmac-sha1", sig_fi, rets[0] if rets else fi.node, ok_ret, "the signature is the base64 encoding of the MAC digest (no trailing newline)")
+    if back is not None:
+        k_e, m_e = back(k_e), back(m_e)
+    fi = sig_fi
 
     # ---- message = base string
     key_fi = fi
@@ -338,6 +376,14 @@ def check_signature_fn(ck, fi):
     if pj is None:
         raise AnalysisError("%s: the parameter string is not `'&'.join(...)` (unknown idiom)" % fi.qualname)
     psep, pgen = pj
+    sorted_strings = False
+    pg = _resolve(fi, pgen)
+    while isinstance(pg, ast.Call) and q.dotted(pg.func) in ("sorted", "list", "tuple") and len(pg.args) == 1:
+        if q.dotted(pg.func) == "sorted":
+            sorted_strings = True  # the already formatted "name=value" strings are ordered, '=' takes part in the comparison
+        pg = _resolve(fi, pg.args[0])
+    if sorted_strings:
+        pgen = pg
     pcomp = _as_comp(fi, pgen)
     if pcomp is None:
         raise AnalysisError("%s: the parameter string is not a single comprehension / append loop (unknown idiom)" % fi.qualname)
@@ -350,12 +396,15 @@ def check_signature_fn(ck, fi):
     is_sorted, comp, source = _iter_info(fi, p_iter)
     env = _env_from_target(p_tgt, comp)
     tk, tv = (t.id for t in p_tgt.elts)
-    ck.ob("C48.params-sorted", ofi, p_iter, is_sorted, "parameters are put in sorted order before they are concatenated")
+    if sorted_strings:
+        ck.ob("C48.params-sorted", ofi, p_elt, False, "parameters are ordered as (name, value) pairs before they are formatted; sorting the formatted 'name=value' strings lets '=' (and the value) take part in the name comparison ('a1=..' < 'a=..')",
+              construct="sorted-after-formatting " + q.normalize_construct(p_elt, set(q.names_in(p_tgt))))
+    ck.ob("C48.params-sorted", ofi, p_iter, is_sorted or sorted_strings, "parameters are put in sorted order before they are concatenated")
     ck.ob("C48.params-sorted", ofi, p_iter, source == p_params, "all request parameters (the dict that is sent) enter the parameter string", construct="source " + str(source))
     pair_txt = q.normalize_construct(p_elt, {tk, tv})
     ck.ob("C48.param-names-escaped", ofi, k_expr, escaped(k_expr, env) and tk in q.names_in(k_expr), "parameter NAMES are percent-encoded (RFC 5849 §3.4.1.3.2: name and value are each encoded)",
-          construct="name part of " + pair_txt)
-    ck.ob("C48.param-values-escaped", ofi, v_expr, escaped(v_expr, env) and tv in q.names_in(v_expr), "parameter VALUES are percent-encoded", construct="value part of " + pair_txt)
+          construct="parameter name " + q.normalize_construct(k_expr, {tk, tv}))
+    ck.ob("C48.param-values-escaped", ofi, v_expr, escaped(v_expr, env) and tv in q.names_in(v_expr), "parameter VALUES are percent-encoded", construct="parameter value " + q.normalize_construct(v_expr, {tk, tv}))
 
     # ---- key
     fi = key_fi
@@ -544,6 +593,8 @@ def run(ck):
     ck.rule("C48.key-parts-encoded", "both key parts are percent-encoded")
     ck.rule("C48.escape-unreserved", "quote() keeps only unreserved characters safe; _oauth_escape quotes UTF-8")
     ck.rule("C48.call-sites", "1.0 and 1.0a are called alike, with the token, and the signed dict is not changed afterwards")
+    global _CK
+    _CK = ck
     for s in SIGS:
         check_signature_fn(ck, ck.func(F, s))
     rule_escape_fn(ck)
@@ -594,6 +645,7 @@ MUTANTS = [
     ("request parameters always signed as GET", _m("OAuthMixin._oauth_request_parameters", replace_expr(lambda n: isinstance(n, ast.Name) and n.id == "method" and isinstance(n.ctx, ast.Load), lambda n: ast.Constant(value="GET"), limit=2)), "C48.call-sites"),
     ("request's own parameters left out of the signed dict", _m("OAuthMixin._oauth_request_parameters", remove_stmts(lambda st: _src(st) == "args.update(parameters)")), "C48.call-sites"),
     ("1.0a: parameter values not escaped", _m("_oauth10a_signature", _unescape_values), "C48.param-values-escaped"),
+    ("seeded C48-adv3: formatted name=value strings sorted instead of the pairs", _m("_oauth_signature", replace_expr(lambda n: isinstance(n, ast.Call) and isinstance(n.func, ast.Attribute) and n.func.attr == "join" and "parameters.items" in _src(n), lambda n: parse_expr("'&'.join(sorted(f'{k}={_oauth_escape(str(v))}' for k, v in parameters.items()))"))), "C48.params-sorted"),
     ("1.0: parameters not sorted", _m("_oauth_signature", replace_expr(lambda n: isinstance(n, ast.Call) and _src(n.func) == "sorted", lambda n: n.args[0])), "C48.params-sorted"),
     ("1.0a: authority not lower-cased", _m("_oauth10a_signature", replace_expr(lambda n: isinstance(n, ast.Call) and _src(n) == "netloc.lower()", lambda n: ast.Name(id="netloc", ctx=ast.Load()))), "C48.url-normalized"),
     ("1.0a: whole URL (with query) signed instead of the normalised one", _m("_oauth10a_signature", replace_expr(lambda n: isinstance(n, ast.Call) and _src(n) == "base_elems.append(normalized_url)", lambda n: parse_expr("base_elems.append(url)"))), "C48.url-normalized"),
